@@ -18,7 +18,7 @@ MaxTypical == 1460
 
 ClausesOf ==
   [C01 |-> {"C01_RejectOnlyTooLong", "C01_MustRejectTooLong", "C01_Decodable", "C01_Pointers", "C01_RoundTrip", "C01_LibraryAgrees",
-            "C01_NoOtherError"},
+            "C01_NoOtherError", "C01_InOrderOnce"},
    C14 |-> {"C14_Abs", "C14_Typical", "C14_Counts", "C14_Partition", "C14_TC", "C14_Header"}]
 Own(clause) == D.own = "ALL" \/ clause \in ClausesOf[D.own]
 Bad(cond, clause) == cond /\ Own(clause)
@@ -50,6 +50,9 @@ CaseClause(c) ==
   ELSE LET bad == {k \in 1..Len(c.pkts) : PktClause(c, c.pkts[k], k = Len(c.pkts)) # ""} IN
        IF bad # {} THEN PktClause(c, c.pkts[CHOOSE k \in bad : \A j \in bad : k <= j], (CHOOSE k \in bad : \A j \in bad : k <= j) = Len(c.pkts))
        ELSE IF \E k \in 1..Len(c.pkts) : ~c.pkts[k].ok THEN ""
+       \* C01: the entries of each section come back in the order given, none lost, duplicated or invented, over all datagrams
+       ELSE IF Bad(Cat(c.pkts, "qs", 1) # c.inp.qs \/ Cat(c.pkts, "an", 1) # c.inp.an \/ Cat(c.pkts, "ns", 1) # c.inp.ns
+                   \/ Cat(c.pkts, "ar", 1) # c.inp.ar, "C01_InOrderOnce") THEN "C01_InOrderOnce"
        ELSE IF Bad(Cat(c.pkts, "qs", 1) # c.inp.qs \/ Cat(c.pkts, "an", 1) # c.inp.an \/ Cat(c.pkts, "ns", 1) # c.inp.ns
                    \/ Cat(c.pkts, "ar", 1) # c.inp.ar, "C14_Partition") THEN "C14_Partition"
        ELSE IF Bad(Len(c.pkts) = 0, "C14_Partition") THEN "C14_Partition"
